@@ -73,6 +73,11 @@ class NexusFitter(object):
         if max_calls is None:
             max_calls = kc("core", "fitters", "nexus_fitter", "max_calls")
 
+        # values assigned to the parameter nodes from outside this fitter (a member fit of a multi-fit shares its nodes) are taken over
+        for _par_name, _par, _min_value in zip(self._fit_par_names, self._fit_pars, self._minimizer.parameter_values):
+            if _par.value != _min_value:
+                self._minimizer.set(_par_name, _par.value)
+
         self.__minimizing = True
         self._minimizer.minimize(max_calls=max_calls)
         self.__minimizing = False
